@@ -227,6 +227,13 @@ func discharge(g *Gen, o *Obligation, workDir string, timeout int, st *solverSta
 	if t1 > 4 {
 		t1 = 4
 	}
+	if o.MustSat {
+		// vacuity covers: a quick satisfiability probe; "unknown" (quantified axioms) is not a failure
+		if timeout > 3 {
+			timeout = 3
+		}
+		t1 = timeout
+	}
 	done := race([]solverSpec{solvers[0], solvers[2]}, t1)
 	if !done && timeout > t1 {
 		o.Output = ""
